@@ -539,6 +539,9 @@ func (q *QueryRangeService) Tail(ctx context.Context, query string) (model.IWatc
 		return nil, err
 	}
 
+	if sqlQuery[0].IsMatrix() {
+		return nil, fmt.Errorf("tail supports log queries only")
+	}
 	res := NewWatcher(make(chan model.QueryRangeOutput))
 
 	from := time.Now().Add(time.Minute * -5)
